@@ -26,7 +26,7 @@ from vlib import advexec, events as vevents, gen, runner, storetrace
 
 PROPERTY = "C09"
 LEVEL = "fault_enumeration"
-TIMEOUT = {"quick": 900, "thorough": 5400}
+TIMEOUT = {"quick": 1500, "thorough": 7200}
 RULE = (
     "programs from vlib.gen.Gen (fused and unfused, multi-output ops, multi-stage rechunks, all-zero data so that "
     "'present' and 'computed' differ, structured intermediates) with <= 40 tasks; crash points enumerated: every k in "
